@@ -21,6 +21,7 @@ import (
 	"time"
 
 	"github.com/olive-io/bpmn/schema"
+	bpmn "github.com/olive-io/bpmn/v2"
 
 	"verifharness/internal/eng"
 	"verifharness/internal/rec"
@@ -167,6 +168,10 @@ func c18cases(tier string) []c18case {
 		// the waiting process has a second start event the flow does not refer to: the instance is started at the
 		// referenced one only (what the process does when it is started there by itself: `alone` uses StartWith)
 		{[]string{"thr1"}, []string{"wtwo"}, []c18flow{{From: 0, To: 1, Kind: "start"}}},
+		// the set is built with initial data (every set of this family is: iv = 1); a message-started process sees it like
+		// an executable one, and like it does when it runs by itself with the same options
+		{[]string{"thr1"}, []string{"wiv"}, []c18flow{{From: 0, To: 1, Kind: "start"}}},
+		{[]string{"thr0", "rv"}, []string{"wiv", "wtask"}, []c18flow{{From: 0, To: 2, Kind: "start"}}},
 		{[]string{"thr0", "task"}, []string{"wtwo"}, []c18flow{{From: 0, To: 2, Kind: "start"}}},
 		// one throw event passed by two tokens: two throws, two instances of the waiting process
 		{[]string{"thrtwo"}, []string{"wtask"}, []c18flow{{From: 0, To: 1, Kind: "start"}}},
@@ -344,6 +349,16 @@ func c18graph(id, shape string, executable bool) *eng.Graph {
 		chain(h, task("C"), en)
 	case "wthr":
 		chain(st, task("A"), throw(), en)
+	case "wiv": // a waiting process that READS AN INITIAL VARIABLE of the set (iv = 1, given with the set's options)
+		a := task("A")
+		x := g.Add("exclusiveGateway", "x", "")
+		b, c := task("B"), task("C")
+		chain(st, a, x)
+		g.Connect(x, b, &eng.Cond{Op: "eq", Var: "iv", K: 1})
+		d := g.Connect(x, c, nil)
+		x.Default = d.ID
+		chain(b, en)
+		chain(c, en)
 	case "wtwo": // a waiting process with TWO start events: the message flow refers to `s`; `s2` (-> task W -> e2) is not its
 		chain(st, en)
 		chain(g.Add("startEvent", "s2", ""), task("W"), g.Add("endEvent", "e2", ""))
@@ -510,7 +525,7 @@ func c18alone(c c18case, idx int, shape string, v int) []string {
 		// started at the referenced start event only, as the message flow does
 		in, err = c18startAt(g, id+"_s")
 	} else {
-		in, _, err = eng.Start(g.XML(), nil)
+		in, _, err = eng.Start(g.XML(), map[string]any{"iv": 1})
 	}
 	if err != nil {
 		return []string{"harness-error " + err.Error()}
@@ -563,7 +578,7 @@ func c18startAt(g *eng.Graph, startID string) (*eng.Inst, error) {
 	if err != nil {
 		return nil, err
 	}
-	in, err := eng.NewInst(defs, nil)
+	in, err := eng.NewInst(defs, map[string]any{"iv": 1})
 	if err != nil {
 		return nil, err
 	}
@@ -664,7 +679,7 @@ func c18sub(spec string) {
 		defer func() { close(stop); hw.Wait() }()
 		c18say("sched slow %s 40ms", pAfter)
 	}
-	s, err := eng.NewSet(defs, func(l string) { c18say("%s", l) })
+	s, err := eng.NewSet(defs, func(l string) { c18say("%s", l) }, bpmn.WithVariables(map[string]any{"iv": 1}))
 	if err != nil {
 		c18say("harness-error %v", err)
 		return
